@@ -211,6 +211,21 @@ func callArgs(f []string) (k int, paths []string, tail string, ok bool) {
 	return id, paths, strings.Join(rest[np:], " "), true
 }
 
+// auxLine: a line of the preamble that builds the memory twin as a child view of an auxiliary memory
+// filespace: `new <aux> mem`, a call on <aux>, `view 1 <aux> <path>`   (<aux> >= 100)
+func auxLine(f []string) bool {
+	aux := func(tok string) bool { n, err := strconv.Atoi(tok); return err == nil && n >= 100 }
+	switch {
+	case f[0] == "new" && len(f) == 3 && f[2] == "mem":
+		return aux(f[1])
+	case f[0] == "view" && len(f) == 4:
+		return f[1] == "1" && aux(f[2])
+	case isCall(f[0]) && len(f) >= 3:
+		return aux(f[1])
+	}
+	return false
+}
+
 // twin: the memory-side line of a disk-side line (ids 2k -> 2k+1), "" when the line is not a call on an even id
 func twin(f []string) string {
 	g := append([]string{}, f...)
@@ -273,6 +288,13 @@ func JudgeHistory(sess *fsdrv.Session, hist []string, st *Stats) []fsdrv.Failure
 			case f[0] == "new" && len(f) == 3 && f[1] == "1" && f[2] == "mem" && res == "ok":
 				rootM, _ = sess.FS(1)
 				ref.Line(f)
+			case auxLine(f):
+				// the preamble of the pairing "memory child view against disk root": an auxiliary memory filespace
+				// (id >= 100), calls on it, and `view 1 <aux> <base>` that makes the memory twin a view
+				ref.Line(f)
+				if f[0] == "view" && res == "ok" {
+					rootM, _ = sess.FS(1)
+				}
 			case f[0] == "hostsnap":
 				if host0 != "" && res != host0 {
 					fail("value", k, l, host0, res)
